@@ -37,9 +37,10 @@ C20Check(ev) ==
         THEN {"C20_Synthetic"} ELSE {})
   \cup (IF ev.res = "exc" /\ ~Poisoned(ev.p) /\ ev.p.k \in ExcKinds /\ ev.cls_kind \notin ExpectedClsKind(ev.p)
         THEN {"C20_Resolved"} ELSE {})
+  \cup (IF ev.second \notin {"n/a", "resolved"} THEN {"C19_ResolvedOnceLoaded"} ELSE {})
 
 (* ---------------------------------------------------------------- C19 *)
-Importable == {"builtin", "builtin2", "module", "nested", "baseonly", "eqhash", "dcerr"}
+Importable == {"builtin", "builtin2", "module", "nested", "baseonly", "eqhash", "dcerr", "attr"}
 Rebuildable == Importable \cup {"local", "dynamic"}            \* cls(args...) reproduces the instance
 ArgsRepr(enc, a) == a \in {"none", "json", "const"} \/ (enc = "pickle" /\ a = "picklable")
 (* custominit / kwonly / mid store their own args via super().__init__: representable iff those are plain *)
@@ -50,6 +51,7 @@ PickleKeeps(nd) == nd.c \in (Importable \cup {"custominit_x"}) /\ nd.a \in {"non
 
 NodeOK(enc, nd, t) ==
   /\ t.is_exc
+  /\ ~t.unrelated
   /\ IF MustBeFaithful(enc, nd) THEN t.same_class /\ t.args_equal
      ELSE t.same_class \/ t.names_original \/ t.base_of_original
 
